@@ -343,6 +343,31 @@ fn shape_attacks(rng: &mut Rng, base: L, n: usize, out: &mut Vec<(L, L)>) {
     }
 }
 
+/// A plain attack graph (n in 1..=max_n, 1-3 components, each of a drawn shape): for the
+/// process-level checks that render their own instance files.
+pub fn shaped_graph(rng: &mut Rng, max_n: usize) -> (usize, Vec<(usize, usize)>) {
+    let n = rng.range(1, max_n);
+    let n_comp = if n >= 3 { rng.weighted(&[60, 30, 10]) + 1 } else { 1 };
+    let mut sizes = vec![0usize; n_comp];
+    for _ in 0..n {
+        let k = rng.below(n_comp);
+        sizes[k] += 1;
+    }
+    let mut atts: Vec<(L, L)> = vec![];
+    let mut base = 0;
+    for s in &sizes {
+        shape_attacks(rng, base as L, *s, &mut atts);
+        base += s;
+    }
+    let mut out: Vec<(usize, usize)> = atts.iter().map(|(a, b)| (*a as usize, *b as usize)).filter(|(a, b)| *a < n && *b < n).collect();
+    out.sort();
+    out.dedup();
+    if rng.chance(1, 2) {
+        rng.shuffle(&mut out);
+    }
+    (n, out)
+}
+
 /// Draws a framework as an op list over labels 0..universe.
 pub fn gen_framework(rng: &mut Rng, p: &GenParams) -> FwSpec {
     let route = match rng.weighted(&[35, 35, 15, 15]) {
